@@ -807,3 +807,45 @@ func VfH_C06_line_spaces() {
 	}
 	vfReach("end")
 }
+
+// H-C06-reuse-state (also C13): reuse with texts that leave every piece of cursor state switched on at the
+// end of the first text (regional-indicator parities of the three rule sets, emoji sequence, numeric
+// sequence, before-spaces context): both texts have 2 (3 thorough) runes over the representatives of the
+// stateful rules.
+func vfStateReps() []rune {
+	seen := map[rune]bool{}
+	var out []rune
+	for _, list := range [][]rune{vfEmojiReps(), vfNumericReps(), vfLineSpaceReps()} {
+		for _, r := range list {
+			if !seen[r] {
+				seen[r] = true
+				out = append(out, r)
+			}
+		}
+	}
+	return out
+}
+
+func VfH_C06_reuse_state() {
+	reps := vfStateReps()
+	n := 2
+	if vfThorough() {
+		n = 3
+	}
+	t1, t2 := make([]rune, n), make([]rune, n)
+	for i := range t1 {
+		t1[i] = reps[vfInt("stateRep1", 0, len(reps)-1)]
+	}
+	for i := range t2 {
+		t2[i] = reps[vfInt("stateRep2", 0, len(reps)-1)]
+	}
+	var used, fresh Segmenter
+	used.Init(t1)
+	used.Init(t2)
+	fresh.Init(t2)
+	vfAssert(len(used.attributes) == len(fresh.attributes) && len(used.text) == len(fresh.text), "reused Segmenter: different lengths")
+	for i := range fresh.attributes {
+		vfAssert(used.attributes[i] == fresh.attributes[i], "reused Segmenter returns different attributes than a fresh one")
+	}
+	vfReach("end")
+}
